@@ -431,7 +431,7 @@ def replay_corpus(prop, findings, pid):
                 continue
             with open(os.path.join(d, name)) as fh:
                 case = json.load(fh)
-            if isinstance(case, dict) and "case" in case and "violations" in case:
+            if isinstance(case, dict) and isinstance(case.get("case"), dict) and "part" not in case:
                 case = case["case"]
             unknown = evaluate(ctx, case)
             n += 1
